@@ -1492,8 +1492,14 @@ class PE:
         try:
             env2 = dict(env)
             for v_ in list(env2):
-                if is_alloc(env2[v_]):
-                    env2[v_] = ('hoist', env2[v_])      # created before the comprehension, shared by all its iterations
+                t_ = env2[v_]
+                if type(t_) is tuple and t_ and t_[0] not in ('c', 'arg', 'g', 'b', 'sym') \
+                        and mentions(t_, lambda x: x[0] in ('comp', 'lam') and type(x[2]) is int and x[2] >= d):
+                    # a closed comprehension / lambda made earlier at this nesting level: inside the new comprehension its
+                    # binders sit one level deeper (keeps binder names unambiguous and equal to the nested spelling)
+                    env2[v_] = t_ = shift_binders(t_, d, 1)
+                if is_alloc(t_):
+                    env2[v_] = ('hoist', t_)      # created before the comprehension, shared by all its iterations
             gl = []
             for gi, g in enumerate(gens):
                 it = it0 if gi == 0 else self.ev(g.iter, env2)
